@@ -35,9 +35,23 @@ type builderCase struct {
 	viol   string // a post-condition of a (sub-)builder already failed inside applyBuilder
 }
 
-func applyBuilder(r *core.Rng, idx int, c *message.IKEPayloadContainer) builderCase {
+// argSlices collects the byte slices handed to the builders by the current case, so that the caller's
+// buffers can be overwritten afterwards (a built payload must not change when the caller reuses its buffer)
+var argSlices [][]byte
+
+func arg(b []byte) []byte {
+	argSlices = append(argSlices, b)
+	return b
+}
+
+type argRng struct{ *core.Rng }
+
+func (a argRng) Bytes(n int) []byte { return arg(a.Rng.Bytes(n)) }
+
+func applyBuilder(r0 *core.Rng, idx int, c *message.IKEPayloadContainer) builderCase {
 	which := idx % 24
-	d := func() []byte { return r.Bytes(argSize(r, idx/24)) }
+	r := argRng{r0}
+	d := func() []byte { return r.Bytes(argSize(r0, idx/24)) }
 	switch which {
 	case 0:
 		proto, typ, spi, data := r.Byte(), r.U16(), r.Bytes(r.Pick(0, 4, 8, 255, 256, 300)), d()
@@ -80,7 +94,7 @@ func applyBuilder(r *core.Rng, idx int, c *message.IKEPayloadContainer) builderC
 		want := &abs.CP{Type: ct}
 		n := 1 + r.Intn(5)
 		for i := 0; i < n; i++ {
-			t, v := r.U16()&0x7fff, r.Bytes(argSize(r, idx/24+i))
+			t, v := r.U16()&0x7fff, r.Bytes(argSize(r0, idx/24+i))
 			if i > 0 && r.Chance(1, 3) { // the same attribute type again (e.g. two INTERNAL_IP4_DNS), same or other value
 				t = want.Attrs[len(want.Attrs)-1].Type
 				if r.Bool() {
@@ -107,7 +121,7 @@ func applyBuilder(r *core.Rng, idx int, c *message.IKEPayloadContainer) builderC
 		}
 		n := r.Pick(1, 1, 2, 3, 255, 256)
 		for i := 0; i < n; i++ {
-			s := gen.Selector(r)
+			s := gen.Selector(r0)
 			if i > 0 && r.Chance(1, 4) {
 				s = want.Sel[len(want.Sel)-1] // an identical selector again
 			}
@@ -133,7 +147,7 @@ func applyBuilder(r *core.Rng, idx int, c *message.IKEPayloadContainer) builderC
 			ap := abs.Proposal{Num: num, Proto: proto, SPI: spi}
 			nt := 1 + r.Intn(6)
 			for j := 0; j < nt; j++ {
-				t := gen.Transform(r, uint8(1+r.Intn(5)))
+				t := gen.Transform(r0, uint8(1+r.Intn(5)))
 				if j > 0 && r.Chance(1, 3) {
 					// the same algorithm offered again: identical, or with another attribute value (e.g. AES-CBC 128/192/256)
 					t = ap.Transforms[len(ap.Transforms)-1]
@@ -141,7 +155,7 @@ func applyBuilder(r *core.Rng, idx int, c *message.IKEPayloadContainer) builderC
 						if t.TV {
 							t.AttrVal += uint16(64 * (1 + r.Intn(3)))
 						} else {
-							t.AttrBytes = gen.DataN(r, len(t.AttrBytes)+r.Intn(2))
+							t.AttrBytes = gen.DataN(r0, len(t.AttrBytes)+r.Intn(2))
 						}
 					}
 				}
@@ -299,7 +313,9 @@ func c19Builder(k *core.Case) {
 	before := bridge.ObservePayloads(cont)
 	k.Eval(1)
 	var bc builderCase
+	argSlices = nil
 	pn := core.Try(func() { bc = applyBuilder(core.NewRng(bseed), k.Index, &cont) })
+	bc.expect = bc.expect.Canon() // private copy of the expected value: the argument buffers are overwritten below
 	w := M{"builder": bc.name, "prior_payloads": np}
 	if pn != nil {
 		k.Violate("panic", "builder: "+pn.Sig(), "builder panicked", panicData(pn, w))
@@ -343,6 +359,20 @@ func c19Builder(k *core.Case) {
 	if !mustFail && after[len(before)].JSON() != bc.expect.JSON() {
 		k.Violate("builder", "built-payload-differs-from-arguments/"+bc.name, after[len(before)].JSON()+" != "+bc.expect.JSON(), w)
 		return
+	}
+	// the caller reuses / scrubs its argument buffers: the built payload (and the earlier ones) must not change
+	if bc.name != "BuildDeletePayload" && !mustFail {
+		for _, a := range argSlices {
+			scribble(a)
+		}
+		again := bridge.ObservePayloads(cont)
+		if len(again) != len(after) || !abs.EqualPayloads(before, again[:len(before)]) || again[len(before)].JSON() != bc.expect.JSON() {
+			k.Violate("builder", "built-payload-shares-memory-with-arguments/"+bc.name, "overwriting the caller's argument buffers after the call changed the container", w)
+			return
+		}
+		for _, a := range argSlices {
+			scribble(a) // restore
+		}
 	}
 	// encoding: either an error, or an encoding from which the independent parser recovers exactly the arguments
 	var one message.IKEPayloadContainer
